@@ -196,7 +196,7 @@ theorem ps_headers (sid : Int) (b : Bytes) (es : Bool) (pr : Option Prio) (c : C
 
 theorem ps_pushKnown (sid p : Int) (hs : List Header) (c : Conn) : PS (receivePushPromiseKnown sid p hs) c := by
   have h : c.sent = c.sent := rfl
-  unfold PS receivePushPromiseKnown
+  unfold PS receivePushPromiseKnown openInboundStreams
   ps_auto2
 
 theorem ps_pushUnknown (sid p : Int) (c : Conn) : PS (receivePushPromiseUnknown sid p) c := by
